@@ -21,7 +21,8 @@ func init() {
 		Level: "model_checking",
 		Rule: "bounded-exhaustive: a generated slice of policies = every unordered pair (thorough: triple) of attribute rules over {element / explicit-element-shadowing-a-pattern / two overlapping element patterns / global} x {no pattern, letters, digits} for one attribute, plus named policies (UGC, cmd policies, links, media with rewriter, foreign, patterns); " +
 			"for every policy, every document its own vocabulary generates: each allowed element (names and pattern witnesses) x each subset of <=2 (thorough 3) applicable attributes x each witness value (values matching exactly one of the overlapping patterns and values matching several) x nesting depth <=2, in canonical serialisation; style attributes made of one or two conforming declarations (every matcher kind, mixed-case spellings); and documents with one token of 1 KiB ... 4 MiB (text run, attribute value, data: URI). " +
-			"Oracle: Sanitize(doc) == doc byte for byte after deleting, from both sides, attributes the policy instructs the sanitiser to add or rewrite. non-trivial = the document carries at least one attribute.",
+			"Oracle: Sanitize(doc) == doc byte for byte after deleting, from both sides, attributes the policy instructs the sanitiser to add or rewrite. non-trivial = the document carries at least one attribute." +
+			" Round 10: a vendor-prefixed rule and a plain rule for one property in one table; declarations under the prefixed name are witnessed with the values only the plain rule accepts.",
 		Assumptions: []string{
 			"for an element allowed by name, documents use element and global rules only (README: explicit name => patterns ignored), so precedence is never relied on",
 			"witness values per registered pattern are listed in internal/checks/conform.go; a witness the live pattern rejects is skipped (C19 judges the patterns)",
